@@ -127,6 +127,13 @@ func (r *MultiplySender) Round1(msg *MultiplyReceiveRound1Message) (*MultiplySen
 		return nil, nil, err
 	}
 
+	// The check weights must depend on the pads we send (Protocol 5, step 4 derives them from
+	// the transcript so far). Otherwise they are known before the pads are chosen, and a pair
+	// of pads can be shifted inside the kernel of the Receiver's check without being detected.
+	for i := range additiveMsg.CombinedPads {
+		_ = r.ctxHash.WriteAny(additiveMsg.CombinedPads[i][0], additiveMsg.CombinedPads[i][1])
+	}
+
 	digest := r.ctxHash.Fork(&hash.BytesWithDomain{TheDomain: "Multiply Chi Sampling", Bytes: nil}).Digest()
 	chi0 := sample.Scalar(digest, r.group)
 	chi1 := sample.Scalar(digest, r.group)
@@ -215,6 +222,12 @@ func (r *MultiplyReceiver) Round2(msg *MultiplySendRound1Message) (curve.Scalar,
 			return nil, errors.New("multiply receive round 2: malformed message")
 		}
 	}
+	// Absorb the pads exactly as received, like the Sender did, before the Additive OT masks
+	// them in place: an altered pad then changes the check weights as well.
+	for i := range msg.Msg.CombinedPads {
+		_ = r.ctxHash.WriteAny(msg.Msg.CombinedPads[i][0], msg.Msg.CombinedPads[i][1])
+	}
+
 	result, err := r.receiver.Round2(msg.Msg)
 	if err != nil {
 		return nil, err
